@@ -3,8 +3,8 @@
    on the pattern of the selected filter / endpoint, hence (Proofs.v) a match
    of the registered expression. *)
 From Coq Require Import List ZArith Bool Lia.
-From Verif Require Import Lib.UrlTree Lib.UrlTreeProofs Lib.Regex C14.Model C14.Proofs.
-From Verif Require C03.Trie C03.Model C03.Spec C03.Basics C03.Proofs C03.Property.
+From Verif Require Import Lib.UrlTree Lib.UrlTreeProofs Lib.Regex C14.Model C14.Proofs C14.Cover.
+From Verif Require C03.Trie C03.Model C03.Spec C03.SpecLocal C03.Basics C03.Proofs C03.Property.
 From Verif Require C13.Model C13.Property.
 Import ListNotations.
 Open Scope Z_scope.
@@ -217,3 +217,124 @@ Qed.
 Lemma globals_manage_all : forall grem gdiag es m u,
   policy_manage_all grem gdiag = true -> managed (policy_manage_all grem gdiag) es m u = true.
 Proof. intros. unfold managed. rewrite H. reflexivity. Qed.
+
+(* ================================================================
+   The same with the narrowest hypotheses
+   ================================================================ *)
+
+
+(* ------------------------------------------------------------------ *)
+(* Flows, with the collision finding localised to the selected flow and
+   the request URL (C03_sound_lax_at) and the exact spelling condition    *)
+
+Lemma flow_selected_matches_at : forall fs x f,
+  C03.Model.load_ok fs = true ->
+  In f (C03.Model.get_flow (C03.Proofs.tree_of fs) x) ->
+  C03.SpecLocal.kc_at fs f (C03.Proofs.url_of x) = true ->
+  In f fs /\
+  matches (parse_pattern (split_url (C03.Model.f_url f))) (split_url (C03.Model.t_url x)) = true /\
+  C03.Spec.method_holds f x.
+Proof.
+  intros fs x f HL H HK.
+  destruct (C03.Property.C03_sound_lax_at fs x f HL H HK) as (Hin & HM & HC & _).
+  split; [exact Hin|]. split; [|exact HC].
+  unfold C03.Spec.matches_lax, C03.Model.pat, C03.Proofs.url_of in HM.
+  rewrite !c03_split_url in HM. exact (lax_matches _ _ _ HM).
+Qed.
+
+Lemma cover_flows_at : forall fs x f,
+  C03.Model.load_ok fs = true ->
+  In f (C03.Model.get_flow (C03.Proofs.tree_of fs) x) ->
+  C03.SpecLocal.kc_at fs f (C03.Proofs.url_of x) = true ->
+  url_ok_exact (C03.Model.f_url f) (C03.Model.t_url x) = true ->
+  In f fs /\
+  exists e, In e (flow_endpoints f) /\
+            re_search e (subject (C03.Model.t_method x) (C03.Model.t_url x)) = true.
+Proof.
+  intros fs x f HL H HK HO.
+  destruct (flow_selected_matches_at fs x f HL H HK) as (Hin & HM & Hm).
+  split; [exact Hin|].
+  unfold flow_endpoints, C03.Spec.method_holds in *.
+  destruct (C03.Model.f_methods f) as [|m0 ms] eqn:Em.
+  - exists (format_any (C03.Model.f_url f)). split; [left; reflexivity|].
+    apply cover_format_any_exact; assumption.
+  - exists (format (C03.Model.t_method x) (C03.Model.f_url f)). split.
+    + apply (in_map (fun m => format m (C03.Model.f_url f))) in Hm. exact Hm.
+    + apply cover_format_exact; assumption.
+Qed.
+
+Lemma no_bypass_flows_at : forall fs x f,
+  C03.Model.load_ok fs = true ->
+  In f (C03.Model.get_flow (C03.Proofs.tree_of fs) x) ->
+  C03.SpecLocal.kc_at fs f (C03.Proofs.url_of x) = true ->
+  url_ok_exact (C03.Model.f_url f) (C03.Model.t_url x) = true ->
+  managed (flows_manage_all fs) (flows_endpoints fs)
+          (C03.Model.t_method x) (C03.Model.t_url x) = true.
+Proof.
+  intros fs x f HL H HK HO.
+  destruct (cover_flows_at fs x f HL H HK HO) as (Hin & e & He & Hs).
+  apply (managed_of_endpoint _ _ e); [|exact Hs].
+  unfold flows_endpoints. apply in_flat_map. exists f. auto.
+Qed.
+
+(* the older hypotheses imply the new ones *)
+Lemma old_hyps_imply_new : forall fs x f,
+  C03.Spec.kind_consistent fs = true -> In f fs ->
+  C03.SpecLocal.kc_at fs f (C03.Proofs.url_of x) = true.
+Proof.
+  intros fs x f HK Hf.
+  destruct (C03.Property.C03_kind_consistent_implies_local fs (C03.Proofs.url_of x) HK) as [_ H].
+  exact (H f Hf).
+Qed.
+
+(* ------------------------------------------------------------------ *)
+(* Policies, through the kind-aware C13_sound                            *)
+
+Lemma policy_selected_matches_kind : forall ds pt m u,
+  C13.Model.build ds = Some pt -> C13.Model.kind_consistentb ds = true ->
+  policy_selected pt m u ->
+  exists d, In d ds /\ C13.Model.d_method d = m /\ decl_enabled d = true /\
+            matches_kind (parse_pattern (split_url (C13.Model.d_url d))) (split_url u) = true.
+Proof.
+  intros ds pt m u HB HK HS.
+  destruct (C13.Property.C13_sound ds HK pt m u HB) as [HR HD].
+  destruct HS as [[r Hr]|[g Hg]].
+  - destruct (HR r Hr) as (d & Hd & Hm & Hin & Hen & HM).
+    exists d. repeat split; try assumption.
+    unfold decl_enabled. apply orb_true_iff. left. eapply existsb_in; eauto.
+  - destruct (HD g Hg) as (d & Hd & Hm & Hin & Hen & HM).
+    exists d. repeat split; try assumption.
+    unfold decl_enabled. apply orb_true_iff. right. eapply existsb_in; eauto.
+Qed.
+
+Lemma cover_policies_kind : forall ds pt m u,
+  C13.Model.build ds = Some pt -> C13.Model.kind_consistentb ds = true ->
+  policy_selected pt m u ->
+  exists d, In d ds /\ C13.Model.d_method d = m /\
+            matches_kind (parse_pattern (split_url (C13.Model.d_url d))) (split_url u) = true /\
+            In (format m (C13.Model.d_url d)) (policy_endpoints ds) /\
+            (url_ok_exact (C13.Model.d_url d) u = true ->
+             re_search (format m (C13.Model.d_url d)) (subject m u) = true).
+Proof.
+  intros ds pt m u HB HK HS.
+  destruct (policy_selected_matches_kind ds pt m u HB HK HS) as (d & Hd & Hm & He & HM).
+  exists d. repeat split; try assumption.
+  - unfold policy_endpoints. apply in_flat_map. exists d. split; [exact Hd|].
+    rewrite He, Hm. left. reflexivity.
+  - intro HO. apply cover_format_exact; [apply matches_kind_matches; exact HM | exact HO].
+Qed.
+
+(* the spelling condition only for the declarations of this method whose
+   pattern matches this URL (kind-aware) *)
+Lemma no_bypass_policies_at : forall ds grem gdiag pt m u,
+  C13.Model.build ds = Some pt -> C13.Model.kind_consistentb ds = true ->
+  policy_selected pt m u ->
+  (forall d, In d ds -> C13.Model.d_method d = m ->
+             matches_kind (parse_pattern (split_url (C13.Model.d_url d))) (split_url u) = true ->
+             url_ok_exact (C13.Model.d_url d) u = true) ->
+  managed (policy_manage_all grem gdiag) (policy_endpoints ds) m u = true.
+Proof.
+  intros ds grem gdiag pt m u HB HK HS HO.
+  destruct (cover_policies_kind ds pt m u HB HK HS) as (d & Hd & Hm & HM & Hin & Hc).
+  eapply managed_of_endpoint; [exact Hin | apply Hc, HO; assumption].
+Qed.
